@@ -29,7 +29,7 @@
 (*       "asis"    GORTNS-1: signal.Stop only, the helper is never released   *)
 (*       "noerr"   the helper is released on the normal exit path only        *)
 (*       "respawn" the one-time worker is started by every top-level run      *)
-EXTENDS Integers, Sequences, FiniteSets, TLC
+EXTENDS RunLifecycleJudge, TLC
 
 CONSTANTS MaxUnits,   \* units of a case besides main
           MaxDepth,   \* nesting depth of units (main = 0)
@@ -39,42 +39,6 @@ CONSTANTS MaxUnits,   \* units of a case besides main
 
 Sites == {"cb", "defer", "go"}
 Exits == {"ok", "error", "panic"}
-SigKind == "os/signal.Notify.func1.1"
-CacheKind == "github.com/tucats/ego/internal/caches.newCache"
-
-(* ------------------------------------------------------------------------ *)
-(* The judgement, on a goroutine table V = set of                            *)
-(*   [id, cls, host, frames, kind]                                           *)
-(*   cls    driver | prog | watcher | once | interp | lib | base             *)
-(*   host   id of the goroutine that created it                              *)
-(*   frames number of executions (RunFromAddress calls) active on it         *)
-(* It is used on the model's own state (invariant NothingLeft) and, by        *)
-(* RunLifecycle_Trace, on tables projected from goroutine profiles of the     *)
-(* real process.                                                             *)
-(* ------------------------------------------------------------------------ *)
-OnceMax(k) == IF k = CacheKind THEN 16 ELSE 1   \* one sweeper per cache class (9 built-in classes)
-
-Watchers(V)    == {g \in V : g.cls = "watcher"}
-HostedBy(V, h) == {w \in Watchers(V) : w.host = h.id}
-(* a helper is accounted for iff the goroutine that started it is alive, can  *)
-(* host executions, and is still inside at least as many executions as it     *)
-(* has helpers                                                                *)
-Explained(V, w) == \E h \in V : /\ h.id = w.host
-                                /\ h.cls \in {"prog", "driver"}
-                                /\ Cardinality(HostedBy(V, h)) <= h.frames
-SameKind(V, g) == {o \in V : o.cls = "once" /\ o.kind = g.kind}
-Orphans(V) == {w \in Watchers(V) : ~Explained(V, w)}
-              \cup {g \in V : g.cls = "prog" /\ g.frames = 0}       \* the program function is over (or never began)
-              \cup {g \in V : g.cls = "interp"}                     \* any other interpreter-started goroutine
-              \cup {g \in V : g.cls = "once" /\ Cardinality(SameKind(V, g)) > OnceMax(g.kind)}
-
-(* the legitimate residue: program goroutines still inside their function,   *)
-(* as a bag of (frames, helpers)                                             *)
-Parked(V) == {g \in V : g.cls = "prog" /\ g.frames >= 1}
-Shape(V, g) == [f |-> g.frames, w |-> Cardinality(HostedBy(V, g))]
-ResidueOf(V, P) == {[f |-> s.f, w |-> s.w, n |-> Cardinality({g \in P : Shape(V, g) = s})]
-                    : s \in {Shape(V, g) : g \in P}}
-Residue(V) == ResidueOf(V, Parked(V))
 
 (* ------------------------------------------------------------------------ *)
 (* Cases                                                                     *)
@@ -161,7 +125,7 @@ Released(x) == CASE Impl = "asis"  -> FALSE
                  [] Impl = "noerr" -> x = "ok"
                  [] OTHER          -> TRUE
 
-NoChild == pc > Len(cs) \/ cs[pc].d # Len(stk)
+NoChild == IF pc > Len(cs) THEN TRUE ELSE cs[pc].d # Len(stk)
 
 (* the innermost unit has run its children and returns from RunFromAddress    *)
 Leave ==
